@@ -182,14 +182,43 @@ def unary_mul_case(case, res):
             res.state((name, n, f))
             check_phase(res, case, name, r, [w], sub0)
         # imaginary phase unary
-        pim = p * 1j
-        if type(pim) is Phase and pim.imaginary:
+        def attempt(site, fn, sub=sub0):
+            try:
+                return fn()
+            except Exception as e:
+                res.violation(f"{site}|raised", f"{type(e).__name__}: {e} [{sub}]", case, sub)
+                return None
+
+        pim = attempt("mul(1j)", lambda: p * 1j)
+        if type(pim) is Phase and (pim.imaginary or pv == 0):
             res.hits["imaginary phase"] += 1
             check_phase(res, case, "mul(1j)", pim, [pv], sub0, imag=True)
-            r = -pim
-            check_phase(res, case, "neg(imaginary)", r, [-pv], sub0, imag=True)
-        else:
+            r = attempt("neg(imaginary)", lambda: -pim)
+            if r is not None:
+                check_phase(res, case, "neg(imaginary)", r, [-pv], sub0, imag=True)
+            r = attempt("abs(imaginary)", lambda: pim + pim)
+            if r is not None and in_range(2 * pv):
+                check_phase(res, case, "add(imaginary, imaginary)", r, [2 * pv], sub0, imag=True)
+        elif pim is not None:
             res.violation("mul(1j)|not imaginary Phase", f"p*1j -> {pim!r}", case, sub0)
+        # in-place / out= forms that switch between real and imaginary (the flag must follow the value)
+        if in_range(2 * pv):
+            steps = [("q *= 1j", lambda q: q.__imul__(1j), pv, True), ("q *= 1j twice", lambda q: q.__imul__(1j).__imul__(1j), -pv, False),
+                     ("q *= 2j; q /= 4j", lambda q: q.__imul__(2j).__itruediv__(4j), pv / 2, False),
+                     ("np.multiply(p, 2j, out=real q)", lambda q: np.multiply(p, 2j, out=q), 2 * pv, True),
+                     ("np.add(p, p, out=imaginary q)", lambda q: np.add(p, p, out=(q.__imul__(1j))), 2 * pv, False),
+                     ("np.negative(p, out=imaginary q)", lambda q: np.negative(p, out=(q.__imul__(1j))), -pv, False)]
+            for nm, fn, want, wimag in steps:
+                q0 = mk(n, f)
+                r = attempt(f"in-place|{nm}", lambda: fn(q0))
+                res.transitions += 1
+                if r is None:
+                    continue
+                if r is not q0:
+                    res.violation(f"in-place|{nm}|identity", f"{nm} did not return the target object [{sub0}]", case, sub0)
+                    continue
+                check_phase(res, case, f"in-place|{nm}", r, [want], sub0, imag=wimag)
+            res.hits["in-place real<->imaginary transitions"] += 1
         # --- multiplication / division by every factor kind
         for k in FACTORS:
             for kind, obj, fks, shp in factor_objects(k):
@@ -226,21 +255,25 @@ def unary_mul_case(case, res):
             for obj_kind, obj in (("python complex", kc), ("np.complex128", np.complex128(kc)), ("0-d array", np.array(kc))):
                 if in_range(pv * kf):
                     for nm, fn in (("p*k", lambda: p * obj), ("k*p", lambda: obj * p)):
-                        r = fn()
+                        r = attempt(f"mul(imag)|{obj_kind}|{nm}", fn, sub)
                         res.transitions += 1
-                        check_phase(res, case, f"mul(imag)|{obj_kind}|{nm}", r, [pv * kf], sub, imag=True)
+                        if r is not None:
+                            check_phase(res, case, f"mul(imag)|{obj_kind}|{nm}", r, [pv * kf], sub, imag=True)
                     if type(pim) is Phase:
-                        r = pim * obj
+                        r = attempt(f"imag*imag|{obj_kind}", lambda: pim * obj, sub)
                         res.transitions += 1
-                        check_phase(res, case, f"imag*imag|{obj_kind}", r, [-pv * kf], sub, imag=False)
+                        if r is not None:
+                            check_phase(res, case, f"imag*imag|{obj_kind}", r, [-pv * kf], sub, imag=False)
                 if in_range(pv / kf):
-                    r = p / obj
+                    r = attempt(f"div(imag)|{obj_kind}", lambda: p / obj, sub)
                     res.transitions += 1
-                    check_phase(res, case, f"div(imag)|{obj_kind}", r, [-pv / kf], sub, imag=True)      # a/(bi) = -(a/b) i
+                    if r is not None:
+                        check_phase(res, case, f"div(imag)|{obj_kind}", r, [-pv / kf], sub, imag=True)      # a/(bi) = -(a/b) i
                     if type(pim) is Phase:
-                        r = pim / obj
+                        r = attempt(f"imag/imag|{obj_kind}", lambda: pim / obj, sub)
                         res.transitions += 1
-                        check_phase(res, case, f"imag/imag|{obj_kind}", r, [pv / kf], sub, imag=False)
+                        if r is not None:
+                            check_phase(res, case, f"imag/imag|{obj_kind}", r, [pv / kf], sub, imag=False)
             res.hits["imaginary factor"] += 1
     res.sample({"count": n, "ops": "construct, neg/abs, * and / by 16 factors x 10 kinds, imaginary factors"}, 1)
 
@@ -317,11 +350,16 @@ def addsub_case(case, res):
             check_phase(res, case, "multiply(out=)", out2, [pv / 2], {"n": n, "f": repr(f)})
             res.hits["out= forms"] += 1
         # imaginary + imaginary
-        a, b = p * 1j, q * 1j
-        if type(a) is Phase and in_range(pv + exact(q)[0]):
-            r = a + b
-            res.transitions += 1
-            check_phase(res, case, "add(imaginary)", r, [pv + exact(q)[0]], {"n": n, "f": repr(f)}, imag=True)
+        try:
+            a, b = p * 1j, q * 1j
+            if type(a) is Phase and in_range(pv + exact(q)[0]):
+                r = a + b
+                res.transitions += 1
+                check_phase(res, case, "add(imaginary)", r, [pv + exact(q)[0]], {"n": n, "f": repr(f)}, imag=True)
+                r = a - b
+                check_phase(res, case, "sub(imaginary)", r, [pv - exact(q)[0]], {"n": n, "f": repr(f)}, imag=True)
+        except Exception as e:
+            res.violation("add(imaginary)|raised", f"{type(e).__name__}: {e}", case, {"n": n, "f": repr(f)})
     res.sample({"count": n, "ops": "p+q, q+p, p-q, q-p with 12 addends x 12 kinds"}, 1)
 
 
@@ -550,7 +588,7 @@ def check_case(case):
 def main(argv=None):
     return report.run_check(
         PID, gen_cases=gen_cases, check_case=check_case, describe=describe,
-        required_hits=["exact +-1/2 fraction", "imaginary phase", "factor kinds", "imaginary factor", "addend kinds",
+        required_hits=["exact +-1/2 fraction", "imaginary phase", "factor kinds", "imaginary factor", "in-place real<->imaginary transitions", "addend kinds",
                        "unit-mismatched addend rejected", "out= forms", "Phase divisor",
                        "remainder within 2^-52 of 0 or d (either neighbour accepted)", "whole grid as one array",
                        "trig/exp on fractional part", "construction kinds"],
